@@ -18,6 +18,8 @@ fn instance(r: &mut Rng, instr: &str) -> Option<Vec<u8>> {
         "bval3" => bval_st(r, 3, a, 7, None).wit(),
         "cap" => cap_below(r, 2, 5, 9).wit(),
         "cap-at" => cap_at(r, 1_000_000, 400, 3, 7).wit(),
+        // at the cap with the zero opening: the percentage commitment is max*G for everyone to see
+        "cap-atzero" => cap_at_rp(r, 1_000_000, 400, 3, 7, Scalar::ZERO).wit(),
         // the permitted "no auditor" case: last key (and so the last handle) is the identity
         "val2-noaud" | "val3-noaud" | "bval2-noaud" | "bval3-noaud" => {
             let n = if instr.contains('3') { 3 } else { 2 };
@@ -70,7 +72,7 @@ pub fn gen_c07(o: &mut Out, tier: &str, seed: u64) {
     let th = tier == "thorough";
     let n_inst = if th { 4 } else { 1 };
     let sig = ["zero", "pubkey", "ctct", "ctcmt", "val2", "val3", "bval2", "bval3", "cap",
-               "val2-noaud", "val3-noaud", "bval2-noaud", "bval3-noaud", "cap-at"];
+               "val2-noaud", "val3-noaud", "bval2-noaud", "bval3-noaud", "cap-at", "cap-atzero"];
     for variant in sig {
         let instr = variant.split('-').next().unwrap_or(variant);
         let special = variant != instr;
